@@ -89,7 +89,10 @@ def _is_default_unset(ftype):
     from flow.record import fieldtypes as ft
 
     try:
-        return issubclass(ftype, (ft.typedlist, ft.digest))
+        if issubclass(ftype, (ft.typedlist, ft.digest)):
+            return True
+        # T[] classes are created with type(name, typedlist.__bases__, dict(typedlist.__dict__)): not subclasses
+        return issubclass(ftype, list) and getattr(ftype, "__type__", None) is not None
     except TypeError:
         return False
 
